@@ -116,6 +116,38 @@ fn main() {
             }
             0
         }
+        "c01tls" => {
+            // TLS server and a peer that pipelines a large backlog and reads late and slowly; evidence is
+            // merged by the sim engine's C01 check
+            let rt = tokio::runtime::Builder::new_multi_thread().worker_threads(8).enable_all().build().unwrap();
+            let mut ev = vcommon::report::Evidence::new();
+            let sessions = args.tier.pick(8u64, 32);
+            let seed = args.seed;
+            let evs = rt.block_on(async move {
+                let mut out = vec![];
+                for batch in 0..(sessions / 4) {
+                    let hs: Vec<_> = (0..4).map(|i| tokio::spawn(c05tls::backlog_case(seed, batch * 4 + i))).collect();
+                    for h in hs {
+                        if let Ok(e) = h.await {
+                            out.push(e);
+                        }
+                    }
+                }
+                out
+            });
+            for e in evs {
+                ev.merge(e);
+            }
+            if let Some(out) = args.extra.get("out") {
+                let _ = std::fs::write(out, serde_json::to_string(&ev.to_json()).unwrap());
+            } else {
+                for v in ev.violations.iter() {
+                    println!("violation: sig={} :: {}", v.sig, v.what);
+                }
+                println!("c01tls: {:?} {:?}", ev.counters, ev.inconclusive);
+            }
+            0
+        }
         "c15accept" => {
             // descriptor exhaustion: runs alone in this process (spawned by the C15 check)
             let rt = tokio::runtime::Builder::new_multi_thread().worker_threads(2).enable_all().build().unwrap();
